@@ -145,5 +145,60 @@ def op_cli_rec(t):
     return "%s ; %s" % (out, lib(compute))
 
 
-for name, fn in [("cli", op_cli), ("cli_shift", op_cli_shift), ("cli_diff", op_cli_diff), ("cli_rec", op_cli_rec)]:
+def _lib_shift(p, offs):
+    for o in offs:
+        sign = 1
+        if o[:1] in "+-":
+            sign = -1 if o[0] == "-" else 1
+            o = o[1:]
+        d = parsers.DurationParser().parse(o)
+        p = p - d if sign < 0 else p + d
+    return p
+
+
+def op_cli_diff_off(t):
+    """cli_diff_off md text1 text2 off1 off2: CLI output of the pair with --offset1/--offset2 ; whether
+    (first shifted by off1) + printed d == (second shifted by off2), computed with the library"""
+    md = t.next()
+    t1, t2, o1, o2 = (dec(t.next()) for _ in range(4))
+    out = run_cli(["--calendar=" + MODEFLAG[md], t1, t2, "--offset1=" + o1, "--offset2=" + o2])
+    impl.set_mode(md)
+    verdict = "NA"
+    try:
+        par = parsers.TimePointParser()
+        p1 = _lib_shift(with_fake_time(0, 0, 0, 0, lambda: par.parse(t1)), [o1])
+        p2 = _lib_shift(with_fake_time(0, 0, 0, 0, lambda: par.parse(t2)), [o2])
+        if out.startswith("OUT "):
+            d = parsers.DurationParser().parse(dec(out[4:]).strip())
+            verdict = "ADDS" if (p1 + d) == p2 else "NOTADDS %s %s" % (enc(str(p1 + d)), enc(str(p2)))
+    except ValueError as exc:
+        verdict = "LIBERR " + classify(exc).split()[-1]
+    return "%s ; %s" % (out, verdict)
+
+
+def op_cli_diff_fmt(t):
+    """cli_diff_fmt md text1 text2: the pair printed with --print-format=y|m|d|h|M|s against the components of the
+    duration the plain command prints"""
+    md = t.next()
+    t1, t2 = dec(t.next()), dec(t.next())
+    plain = run_cli(["--calendar=" + MODEFLAG[md], t1, t2])
+    out = run_cli(["--calendar=" + MODEFLAG[md], t1, t2, "--print-format=y|m|d|h|M|s"])
+    impl.set_mode(md)
+    if not plain.startswith("OUT ") or not out.startswith("OUT "):
+        return "%s ; %s" % (out, "SAME" if plain.split()[0] == out.split()[0] else "DIFFERENT-OUTCOME %s" % plain.split()[0])
+    text = dec(plain[4:]).strip()
+    sign = "-" if text.startswith("-") else ""
+    d = parsers.DurationParser().parse(text.lstrip("-"))
+
+    def sh(x):
+        return str(int(x)) if float(x).is_integer() else str(x)
+    if d.get_is_in_weeks():
+        d = d.to_days()
+    want = sign + "|".join(sh(x or 0) for x in (d.years, d.months, d.days, d.hours, d.minutes, d.seconds))
+    got = dec(out[4:]).strip()
+    return "%s ; %s" % (out, "FMTOK" if got == want else "FMTBAD %s" % enc(want))
+
+
+for name, fn in [("cli", op_cli), ("cli_shift", op_cli_shift), ("cli_diff", op_cli_diff), ("cli_rec", op_cli_rec),
+                 ("cli_diff_off", op_cli_diff_off), ("cli_diff_fmt", op_cli_diff_fmt)]:
     impl.register(name, fn)
